@@ -597,3 +597,38 @@ def forced_payload_copied(P, R, rid):
             "(%s) instead of from a copy: the same dictionary is sent to the other instances, which then handle the forced "
             "event as an ordinary one" % (bad or 'no removal found'))
 
+
+
+def preassigned_target_withdrawn(P, R, rid):
+    """the target of the commands of a non-distributed application is chosen before its sequence begins: a command still
+    PLANNED when that instance is invalidated must lose it (or process_job must test that the instance is RUNNING before
+    command.start()), otherwise the request goes to an instance that is not RUNNING and the job never ends (its deadline
+    counts the ticks of the lost instance)."""
+    from ..paths import factmap, call_text
+    from ..defuse import closed_text
+    found = []
+    for q in ('ApplicationJobs.on_instances_invalidation', 'ApplicationStartJobs.on_instances_invalidation'):
+        cname, mname = q.split('.')
+        u = P.cls(cname).methods.get(mname)
+        if u is None:
+            continue
+        fm = factmap(u)
+        for l in own_nodes(u.node):
+            if not (isinstance(l, ast.For) and 'self.planned_jobs' in closed_text(u, l.iter) and isinstance(l.target, ast.Name)):
+                continue
+            v = l.target.id
+            for a in ast.walk(l):
+                if isinstance(a, ast.Assign) and ast.unparse(a.targets[0]) == v + '.identifier' and \
+                        isinstance(a.value, ast.Constant) and a.value.value is None and \
+                        {(f[0], f[1]) for f in fm.at(a)} == {('%s.identifier in invalidated_identifiers' % v, True)}:
+                    found.append(q)
+    pj = P.unit('ApplicationStartJobs.process_job')
+    fmp = factmap(pj)
+    tested = any(isinstance(c, ast.Call) and call_text(c) == 'command.start' and
+                 any(f[1] and 'command.identifier' in f[0] and 'running' in f[0].lower() for f in fmp.closed(c))
+                 for c in own_nodes(pj.node))
+    R.check(rid, bool(found) or tested, 'a planned command loses a target that is invalidated', 'preassigned-lost',
+            P.unit('ApplicationJobs.on_instances_invalidation').loc(), 'a command still planned keeps the identifier chosen '
+            'in advance (non-distributed application) when that instance is invalidated: neither on_instances_invalidation '
+            'withdraws it (command.identifier = None under `command.identifier in invalidated_identifiers`, over '
+            'planned_jobs) nor process_job tests that it is RUNNING before command.start()')
